@@ -812,11 +812,13 @@ func changeTimelineTimescale(inSTL *m.SegmentTimelineType, oldTimescale, newTime
 	o.S = make([]*m.S, 0, len(inSTL.S))
 	for _, s := range inSTL.S {
 		outS := m.S{
-			T: m.Ptr(round(*s.T)),
 			N: nil,
 			D: round(s.D),
 			R: s.R,
 			K: nil,
+		}
+		if s.T != nil { // Only the first S of a contiguous timeline has t
+			outS.T = m.Ptr(round(*s.T))
 		}
 		o.S = append(o.S, &outS)
 	}
